@@ -388,6 +388,11 @@ func ruleCheckRefusals(c *chk.Ctx) {
 					which = call.Call.Method.Name()
 					if k, isC := ir.ConstInt(call.Call.Args[0]); isC {
 						which += fmt.Sprintf("(%d)", k)
+					} else if bo, isBO := call.Call.Args[0].(*ssa.BinOp); isBO && bo.Op == token.SUB && isNum(bo.X, "NumOut") {
+						// Out(no-1): the last result; the second one where no == 2 is known
+						if k, isC := ir.ConstInt(bo.Y); isC {
+							which += fmt.Sprintf("(no-%d)", k)
+						}
 					}
 				}
 				return fmt.Sprintf("%s%s%s", which, op, typeGlobalRole(c, g))
@@ -414,6 +419,13 @@ func ruleCheckRefusals(c *chk.Ctx) {
 				var ks []string
 				for _, cd := range cs {
 					ks = append(ks, kindOf(cd))
+				}
+				for _, k := range ks {
+					if k == "no==2" {
+						for i := range ks {
+							ks[i] = strings.Replace(ks[i], "(no-1)", "(1)", 1)
+						}
+					}
 				}
 				rf.conds = append(rf.conds, ks)
 			}
@@ -660,10 +672,26 @@ func isCallResultErr(v ssa.Value) bool {
 // rulePositional: C16-D1.
 func rulePositional(c *chk.Ctx) {
 	pos := c.M.HandlerPkg.Func("Positional")
-	mat := c.M.HandlerPkg.Func("makeArgType")
-	mc := c.M.HandlerPkg.Func("makeCaller")
+	// the parts by role: the function that builds the argument struct (calls reflect.StructOf)
+	// and the function that generates the caller (calls reflect.MakeFunc), whatever they are named
+	var mat, mc *ssa.Function
+	var genFn ssa.Value
+	for _, g := range pkgFuncs(c, c.M.HandlerPkg) {
+		ir.Instrs(g, func(ins ssa.Instruction) {
+			call, ok := ins.(*ssa.Call)
+			if !ok {
+				return
+			}
+			if ir.IsCallTo(&call.Call, "reflect.StructOf") {
+				mat = g
+			}
+			if ir.IsCallTo(&call.Call, "reflect.MakeFunc") && len(call.Call.Args) == 2 {
+				mc, genFn = g, call.Call.Args[1]
+			}
+		})
+	}
 	if pos == nil || mat == nil || mc == nil {
-		c.Undecided("PAIR.positional", nil, "Positional", 0, "Positional/makeArgType/makeCaller not found")
+		c.Undecided("PAIR.positional", nil, "Positional", 0, "Positional, or the functions calling reflect.StructOf and reflect.MakeFunc, not found")
 		return
 	}
 	// strict fields enabled on the success path
@@ -708,11 +736,15 @@ func rulePositional(c *chk.Ctx) {
 	c.Check(okArity, "PAIR.positional", mat, "names match the arity", mat.Pos(), "the struct is built only when the number of names equals the number of non-context parameters", "the argument struct is built without checking len(names) against the arity")
 	// the generated caller: args slice fresh per call, element i+1 ← field i
 	var cl *ssa.Function
-	for _, g := range closuresOf(c, mc) {
-		cl = g
+	if mk, ok := ir.NormCell(genFn).(*ssa.MakeClosure); ok {
+		if fn, isFn := mk.Fn.(*ssa.Function); isFn {
+			cl = ir.UnwrapBound(fn) // a function literal, or a method value of a private type
+		}
+	} else if fn, ok := ir.NormCell(genFn).(*ssa.Function); ok {
+		cl = fn
 	}
-	if cl == nil {
-		c.Undecided("PAIR.positional", mc, "generated caller", mc.Pos(), "no closure in makeCaller")
+	if cl == nil || !c.P.InRepo[cl] {
+		c.Undecided("PAIR.positional", mc, "generated caller", mc.Pos(), "the function given to reflect.MakeFunc is not a function literal or method of this package")
 		return
 	}
 	var callArgs ssa.Value
